@@ -31,6 +31,10 @@ differs only by local, behaviour-preserving refactoring idioms:
   T14 a field cached in a local around a loop
         v = X.f ; while T(v): v op= s ; X.f = v ; REST ; v = X.f
       becomes  while T(X.f): X.f op= s ; REST   (v not read anywhere else)
+  T15 a class-level constant tuple/list of constants (assigned once, never
+      stored to anywhere in the package) read as self.NAME / cls.NAME /
+      Class.NAME in an iteration position is replaced by its literal;
+      any(E for x in <literal>) / all(...) become an or / and chain
   T12 an if whose test consists of constants is replaced by the branch taken
   T7  `True if c else False` / `if c: return True; return False`
         with c a comparison              ->  c
@@ -201,6 +205,17 @@ class _ConstSubst(ast.NodeTransformer):
         if node.id in self.mapping and isinstance(node.ctx, ast.Load):
             return ast.copy_location(copy.deepcopy(self.mapping[node.id]),
                                      node)
+        return node
+
+    def visit_BinOp(self, node):
+        self.generic_visit(node)
+        if isinstance(node.op, ast.Add) and isinstance(
+                node.left, ast.Constant) and isinstance(
+                    node.right, ast.Constant) and isinstance(
+                        node.left.value, str) and isinstance(
+                            node.right.value, str):
+            return ast.copy_location(ast.Constant(
+                value=node.left.value + node.right.value), node)
         return node
 
     def visit_Call(self, node):
@@ -656,6 +671,7 @@ class Canon:
             rows = []
             ok = True
             row_names = set()
+            row_attrs = set()
             for e in s.iter.elts:
                 if isinstance(e, ast.Constant):
                     rows.append(e)
@@ -668,8 +684,9 @@ class Canon:
                     row_names |= {n.id for x in e.elts for n in ast.walk(x)
                                   if isinstance(n, ast.Name)
                                   and n.id != "self"}
-                    row_attrs = {n.attr for x in e.elts for n in ast.walk(x)
-                                 if isinstance(n, ast.Attribute)}
+                    row_attrs |= {n.attr for x in e.elts
+                                  for n in ast.walk(x)
+                                  if isinstance(n, ast.Attribute)}
                     if any(isinstance(n, ast.Attribute) and isinstance(
                             n.ctx, (ast.Store, ast.Del)) and
                             n.attr in row_attrs
@@ -717,6 +734,7 @@ class Canon:
             if bad or size * len(rows) > 240:
                 out.append(s)
                 continue
+            unrolled = []
             for r in rows:
                 if isinstance(s.target, ast.Name):
                     mapping = {s.target.id: r}
@@ -726,7 +744,25 @@ class Canon:
                 for b in body:
                     nb = copy.deepcopy(b)
                     nb = _ConstSubst(mapping).visit(nb)
-                    out.append(nb)
+                    unrolled.append(nb)
+            # the row operands were evaluated once, before the loop: nothing
+            # in the unrolled body may write them (a dynamic setattr whose
+            # name became known, or is still unknown)
+            clash = False
+            if row_names or locals().get("row_attrs"):
+                ra = locals().get("row_attrs") or set()
+                for nb in unrolled:
+                    for n in ast.walk(nb):
+                        if isinstance(n, ast.Call) and isinstance(
+                                n.func, ast.Name) and n.func.id == "setattr":
+                            nm = n.args[1] if len(n.args) > 1 else None
+                            if not isinstance(nm, ast.Constant) or \
+                                    nm.value in ra:
+                                clash = bool(ra)
+            if clash:
+                out.append(s)
+                continue
+            out.extend(unrolled)
             self.did("T11.unroll")
         return out
 
@@ -866,6 +902,15 @@ class Canon:
                 [("keywords", i) for i in range(len(v.keywords))]
             for kind, i in slots:
                 arg = v.args[i] if kind == "args" else v.keywords[i].value
+                if isinstance(arg, ast.BoolOp) and len(arg.values) == 2 and \
+                        isinstance(arg.values[0], ast.Name) and \
+                        not _is_boolean_expr(arg.values[1]):
+                    # `a or b` as a value is `a if a else b`
+                    a0, b0 = arg.values
+                    arg = ast.copy_location(
+                        ast.IfExp(test=a0, body=a0, orelse=b0)
+                        if isinstance(arg.op, ast.Or) else
+                        ast.IfExp(test=a0, body=b0, orelse=a0), arg)
                 if isinstance(arg, ast.IfExp) and not (
                         _is_boolean_expr(arg.test) and
                         isinstance(arg.body, ast.Constant) and
@@ -881,6 +926,15 @@ class Canon:
                         ast.If(test=arg.test, body=[a], orelse=[b]), s)
                 if not _pure_operand(arg):
                     break
+        if isinstance(s, (ast.Assign, ast.Return)) and isinstance(
+                v, ast.BoolOp) and len(v.values) == 2 and isinstance(
+                    v.values[0], ast.Name) and not _is_boolean_expr(
+                        v.values[1]):
+            a0, b0 = v.values
+            s.value = ast.copy_location(
+                ast.IfExp(test=a0, body=a0, orelse=b0)
+                if isinstance(v.op, ast.Or) else
+                ast.IfExp(test=a0, body=b0, orelse=a0), v)
         if isinstance(s, (ast.Assign, ast.AugAssign, ast.AnnAssign,
                           ast.Return)) and isinstance(
                               getattr(s, "value", None), ast.IfExp):
@@ -1028,10 +1082,145 @@ def _as_load(t):
     return t2
 
 
+def _class_constants(trees):
+    """{class name: {attr: literal node}} for class-level tuple/list
+    literals of constants that nothing in the package stores to."""
+    stored = set()
+    for tree in trees.values():
+        for n in ast.walk(tree):
+            if isinstance(n, ast.Attribute) and isinstance(
+                    n.ctx, (ast.Store, ast.Del)):
+                stored.add(n.attr)
+            if isinstance(n, ast.Call) and isinstance(n.func, ast.Name) and \
+                    n.func.id == "setattr" and len(n.args) >= 2:
+                if isinstance(n.args[1], ast.Constant):
+                    stored.add(n.args[1].value)
+    out = {}
+    for tree in trees.values():
+        for c in tree.body:
+            if not isinstance(c, ast.ClassDef):
+                continue
+            seen = {}
+            for st in c.body:
+                if isinstance(st, ast.Assign) and len(st.targets) == 1 and \
+                        isinstance(st.targets[0], ast.Name):
+                    nm = st.targets[0].id
+                    seen[nm] = seen.get(nm, 0) + 1
+                    v = st.value
+                    if isinstance(v, (ast.Tuple, ast.List)) and v.elts and \
+                            len(v.elts) <= 12 and all(
+                                isinstance(e, ast.Constant) or (
+                                    isinstance(e, (ast.Tuple, ast.List)) and
+                                    all(isinstance(x, ast.Constant)
+                                        for x in e.elts))
+                                for e in v.elts):
+                        out.setdefault(c.name, {})[nm] = v
+            for nm, k in seen.items():
+                if k != 1 or nm in stored:
+                    out.get(c.name, {}).pop(nm, None)
+    # `self.NAME` is looked up through the instance's class: the name must
+    # be defined by one class only (a subclass may override it otherwise)
+    count = {}
+    for tree in trees.values():
+        for c in ast.walk(tree):
+            if isinstance(c, ast.ClassDef):
+                for st in c.body:
+                    tg = st.targets if isinstance(st, ast.Assign) else (
+                        [st.target] if isinstance(st, ast.AnnAssign) else [])
+                    for t in tg:
+                        if isinstance(t, ast.Name):
+                            count[t.id] = count.get(t.id, 0) + 1
+    for cname in list(out):
+        for nm in list(out[cname]):
+            if count.get(nm, 0) != 1 or nm.startswith("__"):
+                del out[cname][nm]
+    return out
+
+
+class _IterConst(ast.NodeTransformer):
+    """T15: literal for a class constant in iteration position, and
+    any()/all() over a literal as a boolean chain."""
+
+    def __init__(self, consts, cls_name, selfn, canon):
+        self.consts = consts
+        self.cls_name = cls_name
+        self.selfn = selfn
+        self.canon = canon
+
+    def _literal(self, e):
+        if isinstance(e, ast.Attribute) and isinstance(e.value, ast.Name):
+            base = e.value.id
+            cname = None
+            if base in (self.selfn, "cls") and self.cls_name:
+                cname = self.cls_name
+            elif base in self.consts:
+                cname = base
+            lit = self.consts.get(cname, {}).get(e.attr) if cname else None
+            if lit is not None:
+                return ast.copy_location(copy.deepcopy(lit), e)
+        return None
+
+    def visit_For(self, node):
+        self.generic_visit(node)
+        lit = self._literal(node.iter)
+        if lit is not None:
+            node.iter = lit
+            self.canon.did("T15.class-constant")
+        return node
+
+    def visit_Call(self, node):
+        self.generic_visit(node)
+        if isinstance(node.func, ast.Name) and node.func.id in (
+                "any", "all") and len(node.args) == 1 and \
+                not node.keywords and isinstance(
+                    node.args[0], (ast.GeneratorExp, ast.ListComp)) and \
+                len(node.args[0].generators) == 1:
+            g = node.args[0].generators[0]
+            it = self._literal(g.iter) or g.iter
+            if isinstance(it, (ast.Tuple, ast.List)) and it.elts and \
+                    not g.ifs and not g.is_async and len(it.elts) <= 12 and \
+                    all(isinstance(e, ast.Constant) or (
+                        isinstance(e, (ast.Tuple, ast.List)) and all(
+                            isinstance(x, ast.Constant) for x in e.elts))
+                        for e in it.elts):
+                vals = []
+                for e in it.elts:
+                    if isinstance(g.target, ast.Name):
+                        mapping = {g.target.id: e}
+                    elif isinstance(g.target, ast.Tuple) and isinstance(
+                            e, (ast.Tuple, ast.List)) and len(
+                                e.elts) == len(g.target.elts) and all(
+                                    isinstance(t, ast.Name)
+                                    for t in g.target.elts):
+                        mapping = {t.id: v for t, v in zip(g.target.elts,
+                                                           e.elts)}
+                    else:
+                        return node
+                    vals.append(_ConstSubst(mapping).visit(
+                        copy.deepcopy(node.args[0].elt)))
+                self.canon.did("T15.any-all")
+                op = ast.Or() if node.func.id == "any" else ast.And()
+                if len(vals) == 1:
+                    return vals[0]
+                return ast.copy_location(ast.BoolOp(op=op, values=vals),
+                                         node)
+        return node
+
+
 def canon_trees(trees):
     """trees: {module: ast.Module}; mutates; -> {rewrite: count}."""
     c = Canon()
+    consts = _class_constants(trees)
     for mod, tree in trees.items():
+        for top in tree.body:
+            if isinstance(top, ast.ClassDef):
+                for b in top.body:
+                    if isinstance(b, (ast.FunctionDef,
+                                      ast.AsyncFunctionDef)):
+                        selfn = b.args.args[0].arg if b.args.args else None
+                        _IterConst(consts, top.name, selfn, c).visit(b)
+            elif isinstance(top, (ast.FunctionDef, ast.AsyncFunctionDef)):
+                _IterConst(consts, None, None, c).visit(top)
         for n in ast.walk(tree):
             if isinstance(n, (ast.FunctionDef, ast.AsyncFunctionDef)):
                 c.run_function(n)
